@@ -1,4 +1,4 @@
-\* C02 exhaustive, thorough: 4 calls deep
+\* C02 exhaustive, thorough: weakest grant rule, 4 handles, blocks of 2 and 3 octets, 3 calls deep
 SPECIFICATION MCSpec
 CONSTANTS
   Handles = {0, 1, 2, 3}
@@ -9,15 +9,18 @@ CONSTANTS
   Pre = 1
   MaxLen = 5
   MaxWins = 5
-  Depth = 4
+  Depth = 3
   PatSet = "c02"
   InitSet = "one"
   ObsLast = FALSE
   Rand = FALSE
   Letters = {0, 1}
+  LastOps = {}
+  LastSz = {}
+  Dom = "all"
   Ops = {"dup", "splice", "split", "merge", "append", "insert", "delete", "truncate", "resize", "prepend", "poke", "free"}
-INVARIANT TypeOK ByteString FreshSingle WriteOnlySingle
-PROPERTY Isolation StructuralOpsDontWrite SharedNeverWritten ErrLeavesUnchanged
+INVARIANT TypeOK ByteString FreshSingle
+PROPERTY Isolation WriteOnlySingle StructuralOpsDontWrite SharedNeverWritten ErrLeavesUnchanged
 CONSTRAINT Bounded
 VIEW view
 CHECK_DEADLOCK FALSE
